@@ -106,6 +106,7 @@ func c03NewFilter() (f *filtering.DNSFilter, dir string, err error) {
 // c03Prepare builds a Server whose access lists come from ServerConfig, as at
 // program start.
 func c03Prepare(l *c03Lists, strictSNI bool) (u *c03Unstarted, err error) {
+	handleDDR := l.HandleDDR
 	f, dir, err := c03NewFilter()
 	if err != nil {
 		return nil, err
@@ -132,6 +133,7 @@ func c03Prepare(l *c03Lists, strictSNI bool) (u *c03Unstarted, err error) {
 			UpstreamMode:      UpstreamModeLoadBalance,
 			EDNSClientSubnet:  &EDNSClientSubnet{Enabled: false},
 			ClientsContainer:  EmptyClientsContainer{},
+			HandleDDR:         handleDDR,
 			AllowedClients:    append([]string{}, l.Allow...),
 			DisallowedClients: append([]string{}, l.Deny...),
 			BlockedHosts:      append([]string{}, l.Hosts...),
@@ -586,7 +588,7 @@ func TestVerifC03Decision(t *testing.T) {
 			// A long-lived server per worker for configurations set through
 			// the API handler.
 			var api *c03Unstarted
-			apiStrict := w%2 == 1
+			apiStrict, apiDDR := w%2 == 1, w%4 < 3
 			defer func() {
 				if api != nil {
 					api.close()
@@ -596,12 +598,16 @@ func TestVerifC03Decision(t *testing.T) {
 				rng := rand.New(rand.NewSource(j.seed))
 				viaAPI := j.idx%3 == 2
 				l := c03GenLists(rng, viaAPI)
+				l.HandleDDR = rng.Intn(4) != 0
+				if viaAPI {
+					l.HandleDDR = apiDDR
+				}
 				var u *c03Unstarted
 				var err error
 				strict := apiStrict
 				if viaAPI {
 					if api == nil {
-						if api, err = c03Prepare(&c03Lists{}, apiStrict); err != nil {
+						if api, err = c03Prepare(&c03Lists{HandleDDR: apiDDR}, apiStrict); err != nil {
 							rep.Inconcl("cannot prepare a server: " + err.Error())
 
 							continue
@@ -644,6 +650,7 @@ func TestVerifC03Decision(t *testing.T) {
 		{"allow_mode_disallowed_entry_ignored", 10}, {"dnscrypt_writer_nil:refused", 20},
 		{"dnscrypt_writer_udp:refused", 20}, {"dnscrypt_writer_tcp:refused", 20},
 		{"doh_two_clientids_decision_depends_on_which_id:strict", 30}, {"doh_two_clientids_decision_depends_on_which_id:lax", 30},
+		{"special_name:refused", 200}, {"special_name:admitted", 50}, {"ddr_name:refused:handle_ddr=true", 30}, {"ddr_name:refused:handle_ddr=false", 10},
 		{"doh_two_clientids:equal:strict", 10}, {"doh_two_clientids:sni-invalid:strict", 10}} {
 		if n := rep.ClassCount(need.class); n < need.min {
 			rep.Inconcl(fmt.Sprintf("too few cases of class %s: %d", need.class, n))
@@ -733,6 +740,9 @@ func c03RunConf(rep *verifkit.Report, rng *rand.Rand, idx int, s *Server, l *c03
 			c.Name = strings.TrimSuffix(c.Name, ".")
 		}
 		c.qtype = c03QTypes[rng.Intn(len(c03QTypes))]
+		if c03IsSpecial(c.Name) {
+			c.qtype = c03SpecialQTypes[rng.Intn(len(c03SpecialQTypes))]
+		}
 		c.QType = dns.TypeToString[c.qtype]
 
 		cv := c03DecideClient(allow, deny, c.addr, c.ID)
@@ -799,7 +809,13 @@ func c03RunConf(rep *verifkit.Report, rng *rand.Rand, idx int, s *Server, l *c03
 			cvS := c03DecideClient(allow, deny, c.addr, c.SNIID)
 			if c.TwoIDs == "different" && !nameBlocked && cv.Specified && cvS.Specified && cv.Excluded != cvS.Excluded {
 				rep.Class("doh_two_clientids_decision_depends_on_which_id:" + sfx)
-				if (o.Kind != "nil") == cvS.Excluded {
+				// Differential control: the same request with the path
+				// ClientID alone must be decided rightly, otherwise the
+				// defect is not about which of the two ids is used.
+				single := *c
+				single.Carrier, single.SNIID, single.TwoIDs = "path", "", ""
+				os := c03Observe(s, &single, single.ID, c03Context(&single, nextID(), reqMsgID))
+				if (o.Kind != "nil") == cvS.Excluded && (os.Kind != "nil") == cv.Excluded {
 					mode := "block-mode"
 					if cv.AllowMode {
 						mode = "allow-mode"
@@ -840,6 +856,12 @@ func c03RunConf(rep *verifkit.Report, rng *rand.Rand, idx int, s *Server, l *c03
 		}
 		if refused {
 			rep.Class(c.Proto + ":refused")
+			if c03IsSpecial(c.Name) {
+				rep.Class("special_name:refused")
+				if c03NormName(c.Name) == "_dns.resolver.arpa" {
+					rep.Class(fmt.Sprintf("ddr_name:refused:handle_ddr=%v", l.HandleDDR))
+				}
+			}
 			if c.DCPeer != "" {
 				rep.Class("dnscrypt_writer_" + c.DCPeer + ":refused")
 			}
@@ -866,6 +888,9 @@ func c03RunConf(rep *verifkit.Report, rng *rand.Rand, idx int, s *Server, l *c03
 			continue
 		}
 		rep.Class(c.Proto + ":admitted")
+		if c03IsSpecial(c.Name) {
+			rep.Class("special_name:admitted")
+		}
 		rep.Class("want_admitted")
 		if cv.AllowMode {
 			in := c03Interp{idCmp: 1, stripZone: true, unmap: true}
